@@ -81,6 +81,10 @@ type trTranslator struct {
 	imports  map[*trUnit]map[*trUnit]bool
 	omitted  map[types.Object]map[string]bool // struct type → fields left out (untranslatable types)
 	noEq     map[types.Object]bool            // struct types with a field of function type
+	// trees of lib/common/multimap (trans_tree.go)
+	treePinOK  bool
+	treePinErr string
+	usesTree   map[*trUnit]bool
 }
 
 func (t *trTranslator) leanNS(u *trUnit) string {
@@ -187,6 +191,9 @@ func (t *trTranslator) leanType(from *trUnit, ty types.Type, pos token.Pos) stri
 		}
 		if op, ok := trOpaque[x.Obj().Pkg().Path()+"."+x.Obj().Name()]; ok {
 			return op
+		}
+		if r, ok := t.treeType(from, x, pos); ok {
+			return r
 		}
 		if x.Obj().Pkg().Path() == "strings" && x.Obj().Name() == "Builder" {
 			return "String" // the text written so far
